@@ -182,7 +182,11 @@ func (g *sgen) stmt() Stmt {
 		a, t2 := g.tk(g.intExpr())
 		return Stmt{Kind: "onelinecompound", Lines: []string{"if " + c + ": " + g.v() + " = " + a}, Ticks: []int{t, t2}}
 	case x < 34:
-		return Stmt{Kind: "comment", Lines: []string{"# just a comment " + fmt.Sprint(r.Intn(100))}}
+		c := "# just a comment " + fmt.Sprint(r.Intn(100))
+		if r.Chance(1, 3) {
+			c = []string{"# see C:\\temp\\", "#\\", "   # indented comment \\"}[r.Intn(3)]
+		}
+		return Stmt{Kind: "comment", Lines: []string{c}}
 	case x < 35:
 		d, t := g.tk("lambda f: f")
 		return Stmt{Kind: "compound", Lines: []string{"@" + d, "def g" + fmt.Sprint(r.Intn(2)) + "():", in + "return 42"}, Ticks: []int{t}}
@@ -247,7 +251,7 @@ func (g *sgen) stmt() Stmt {
 			return Stmt{Kind: "compound", Lines: []string{"if True:", in + g.v() + " = " + a, in, in + g.v() + " = " + b}, Ticks: []int{t, t2}}
 		}
 	case x < 37:
-		bad := []string{"x = = 1", "1 +* 2", "def (:", "v0 = )", "if", "for in x:", "v1 = 5 5", "class :", "return", "a b"}
+		bad := []string{"x = = 1", "1 +* 2", "def (:", "v0 = )", "if", "for in x:", "v1 = 5 5", "class :", "return", "a b", "v0 = ) \\", "1 +* 2 \\"}
 		return Stmt{Kind: "syntaxerr", Lines: []string{bad[r.Intn(len(bad))]}}
 	case x < 38:
 		a, t := g.tk("1")
